@@ -1,6 +1,6 @@
 (* C05 — Version ranges mean what they say; conflict means a shared version.
    Statements only; each closed by [exact] of a lemma proved in theories/. *)
-From DS Require Import Base Versions VersionsProofs.
+From DS Require Import Base Versions VersionsProofs Semver SemverProofs.
 
 Section C05.
   (* any version type whose comparison is a total order with a least element:
@@ -82,6 +82,32 @@ Proof.
   - intros v; destruct v; discriminate.
 Qed.
 
+(* 4. the concrete order of semver::Version (Semver.v, compared with the
+   crate on every run) is such a total order, with least element 0.0.0-0, and
+   is semver precedence refined by build metadata *)
+Theorem C05_semver_total_order : total_order Semver.version Semver.cmp Semver.bot.
+Proof.
+  exact (Build_total_order _ _ _ cmp_eq_strong SemverProofs.cmp_refl SemverProofs.cmp_antisym
+           SemverProofs.cmp_trans bot_min_strong).
+Qed.
+
+Theorem C05_semver_refines_precedence : forall a b,
+  (Semver.prec_cmp a b = Lt -> Semver.cmp a b = Lt) /\
+  (Semver.prec_cmp a b = Gt -> Semver.cmp a b = Gt) /\
+  (Semver.prec_cmp a b = Eq -> Semver.build a = Semver.build b -> Semver.cmp a b = Eq).
+Proof.
+  exact (fun a b => conj (cmp_refines_precedence a b)
+                      (conj (cmp_refines_precedence_gt a b) (cmp_precedence_eq a b))).
+Qed.
+
+(* the range theorems, instantiated at the concrete order *)
+Theorem C05_semver_overlaps_iff_shared : forall r1 r2,
+  wf_range _ Semver.cmp r1 -> wf_range _ Semver.cmp r2 ->
+  k2_class _ Semver.cmp Semver.bot r1 r2 = false ->
+  (overlaps _ Semver.cmp r1 r2 = true <->
+   exists v, vin _ Semver.cmp r1 v /\ vin _ Semver.cmp r2 v).
+Proof. exact (C05_overlaps_iff_shared _ _ _ C05_semver_total_order). Qed.
+
 Example C05_nonvacuous :
   overlaps N N.compare (VFrom 3) (VFromUntil 3 3) = true /\
   overlaps N N.compare (VFromUntil 1 3) (VFrom 3) = false /\
@@ -101,3 +127,6 @@ Print Assumptions C05_sharedb_iff.
 Print Assumptions C05_vinb_iff.
 Print Assumptions C05_header_policy.
 Print Assumptions C05_header_policy_total.
+Print Assumptions C05_semver_total_order.
+Print Assumptions C05_semver_refines_precedence.
+Print Assumptions C05_semver_overlaps_iff_shared.
